@@ -185,7 +185,7 @@ def recorded_cases(chk, fi: FuncInfo, recs, fold, label_of):
 def check_pair_loop(chk, fi: FuncInfo, loop: ast.For, sites: c03e.Sites, c: Dict[str, Any], fold, label_of, eq_fields) -> str:
     """Returns the name of the list the triples are recorded in."""
     paths = SX.Executor(nonnull=sites.nonnull, rewrite=sites.rewrite, helpers=c03e.new_helpers(chk.repo, fi)).run(loop.body, c03e.constant_tuples(fi, loop))
-    stores = sorted({e.recv for p in paths for e in p.effects if e.kind == "call" and e.method == "append" and e.recv in sites.nonnull})
+    stores = sorted({e.recv for p in paths for e in p.effects if e.kind == "call" and e.method in ("append", "add") and e.recv in sites.nonnull})
     if len(stores) != 1:
         raise NotReadable(f"the stacking loop appends to {stores}, expected one list of triples")
     store = stores[0]
@@ -196,7 +196,7 @@ def check_pair_loop(chk, fi: FuncInfo, loop: ast.For, sites: c03e.Sites, c: Dict
     for side in c03e.SIDES:
         chk.ok("stack-roles", fi.site(loop), f"residue_{side} = the residue whose centroid is point {sites.idx[c03e.SIDES.index(side)]} of the query pair; normal_{side} = its base_normal_vector (read after substitution)")
         chk.ok("stack-roles", fi.site(loop), f"point_{side} = the centroid registered for that residue")
-    recs = [(p, e) for p in paths for e in p.effects if e.recv == store and e.method == "append"]
+    recs = [(p, e) for p in paths for e in p.effects if e.recv == store and e.method in ("append", "add")]
     if not recs:
         chk.violation("stack-labels", fi.site(loop), "no path through the stacking loop records a pair", K(fi, "no-record"))
         return store
@@ -406,10 +406,10 @@ def check_registration(chk, fi: FuncInfo, sites: c03e.Sites) -> None:
 def check_orientation(chk, fi: FuncInfo, loop: ast.For, sites: c03e.Sites, fold, label_of, rule: str = "stack-orientation") -> None:
     """C11: every recorded stacking names the lower residue first (the later sorted() orders the list, it does not re-orient a pair)."""
     paths = SX.Executor(nonnull=sites.nonnull, rewrite=sites.rewrite, helpers=c03e.new_helpers(chk.repo, fi)).run(loop.body, c03e.constant_tuples(fi, loop))
-    stores = sorted({e.recv for p in paths for e in p.effects if e.kind == "call" and e.method == "append" and e.recv in sites.nonnull})
+    stores = sorted({e.recv for p in paths for e in p.effects if e.kind == "call" and e.method in ("append", "add") and e.recv in sites.nonnull})
     if len(stores) != 1:
         raise NotReadable(f"the stacking loop appends to {stores}, expected one list of triples")
-    recs = [(p, e) for p in paths for e in p.effects if e.recv == stores[0] and e.method == "append"]
+    recs = [(p, e) for p in paths for e in p.effects if e.recv == stores[0] and e.method in ("append", "add")]
     cases, problems, undirected = recorded_cases(chk, fi, recs, fold, label_of)
     if problems or len(cases) != 4 or any(None in v[:2] for v in cases.values()):
         chk.error(rule, fi.site(loop), "; ".join(problems[:2]) or "recorded stacking not evaluable in some (order, direction) case")
